@@ -1,8 +1,15 @@
-(* C05/C06 runner (extracted generator + printer).  stdin: one request per line
-     gen <pid> <tag> <c1> <c2> ...          print the generated program
+(* C05/C06 runner (extracted generator + printer + rewrites + faults).  stdin: one request per line
+     case <pid> <tag> <nrewrites> <depth> <nfaults> <rseed> <faultclass|any> | <c1> <c2> ...
+   For the program generated from the choices c1.. prints
+     - the program itself                                   (pid.b)
+     - nrewrites variants, each a composition of up to `depth` applicable rewrites   (pid.r<k>)
+     - nfaults planted variants                              (pid.f<k>)
    stdout: bundle for harness/src/bin/c05.rs (P/F lines) interleaved with
-     M <pid> <key> <value>                   facts about the program (fellback, ...)
-     S <pid> <nid> <file> <line> <col> <len> site table of every tagged token *)
+     M <pid> <key> <value...>        facts: fellback, rewrites, valid, fault, expect, blame, faulty_file
+     U <pid> <file> <key> : <dep keys...>   design unit of a file and the units it refers to (for a planted
+                                     program: read off the ORIGINAL program; plants never add or remove units)
+     S <pid> <nid> <file> <line> <col> <len>   position of the token of the node to blame
+   Tags: variant k of a program with tag t is printed with tag t*64+k, so all library names are distinct. *)
 open Util
 let char_of_ascii (a : Ascii.ascii) : char =
   match a with
@@ -16,27 +23,153 @@ let string_of_coq (s : String.string) : Stdlib.String.t =
     | String.String (c, r) -> Buffer.add_char b (char_of_ascii c); go r in
   go s; Buffer.contents b
 
-let emit_program pid tag (p : Syntax.program) =
+let rng = ref 1
+let next_rand () =
+  rng := (!rng * 1103515245 + 12345) land 0x3fffffff;
+  (!rng lsr 8)
+let rand n = if n <= 0 then 0 else (next_rand ()) mod n
+let pick l = match l with [] -> None | _ -> Some (Stdlib.List.nth l (rand (Stdlib.List.length l)))
+
+let key_str ((l, n), s) = Printf.sprintf "%d.%d.%d" (int_of_n l) (int_of_n n) (int_of_n s)
+
+(* prints program p under id pid; want: node ids whose positions are reported; returns unit -> file map *)
+let emit_program ?(units_of : Syntax.program option) pid tag (p : Syntax.program) (want : int list) =
   Printf.printf "P %s\n" pid;
   let files = Print.print_program (n_of_int tag) p in
   Stdlib.List.iter (fun ((lib, file), toks) ->
     let (text, sites) = Print.layout toks in
     let text = string_of_coq text in
+    let file = string_of_coq file in
     let lines = Stdlib.String.split_on_char '\n' text in
     let lines = match Stdlib.List.rev lines with "" :: r -> Stdlib.List.rev r | _ -> lines in
-    Printf.printf "F %s %s %d\n" (string_of_coq lib) (string_of_coq file) (Stdlib.List.length lines);
+    Printf.printf "F %s %s %d\n" (string_of_coq lib) file (Stdlib.List.length lines);
     Stdlib.List.iter (fun l -> print_string l; print_char '\n') lines;
     Stdlib.List.iter (fun (nid, ((line, col), len)) ->
-      Printf.printf "S %s %d %s %d %d %d\n" pid (int_of_n nid) (string_of_coq file) (int_of_n line) (int_of_n col) (int_of_n len)) sites
-  ) files
+      let i = int_of_n nid in
+      if Stdlib.List.mem i want then
+        Printf.printf "S %s %d %s %d %d %d\n" pid i file (int_of_n line) (int_of_n col) (int_of_n len)) sites
+  ) files;
+  (* units: file name = lib<tag>_<l>_<k>.vhd in unit order *)
+  Stdlib.List.iter (fun (lb : Syntax.library) ->
+    Stdlib.List.iteri (fun k u ->
+      let file = Printf.sprintf "lib%d_%d_%d.vhd" tag (int_of_n lb.Syntax.l_name) k in
+      Printf.printf "U %s %s %s :" pid file (key_str (Faults.unit_key lb.Syntax.l_name u));
+      Stdlib.List.iter (fun d -> Printf.printf " %s" (key_str d)) (Faults.unit_deps lb.Syntax.l_name u);
+      print_char '\n') lb.Syntax.l_units) (match units_of with Some q -> q | None -> p)
+
+let file_of_nid tag (p : Syntax.program) (nid : int) : string =
+  let res = ref "?" in
+  Stdlib.List.iter (fun (lb : Syntax.library) ->
+    Stdlib.List.iteri (fun k u ->
+      if Stdlib.List.exists (fun x -> int_of_n x = nid) (Syntax.nids_dunit u) then
+        res := Printf.sprintf "lib%d_%d_%d.vhd" tag (int_of_n lb.Syntax.l_name) k) lb.Syntax.l_units) p;
+  !res
+
+let cls_name (c : Sem.cls) = match c with
+  | Sem.Undeclared -> "Undeclared" | Sem.Duplicate -> "Duplicate" | Sem.TypeMismatch -> "TypeMismatch"
+  | Sem.NoOverload -> "NoOverload" | Sem.UnknownField -> "UnknownField" | Sem.UnknownItem -> "UnknownItem"
+  | Sem.UnknownLib -> "UnknownLib" | Sem.UnknownUnit -> "UnknownUnit" | Sem.UnknownArch -> "UnknownArch"
+  | Sem.UnknownFormal -> "UnknownFormal" | Sem.MissingAssoc -> "MissingAssoc" | Sem.KindMismatch -> "KindMismatch"
+  | Sem.Ambiguous -> "Ambiguous" | Sem.Conservative -> "Conservative" | Sem.Other -> "Other"
+let fclass_name (f : Faults.fclass) = match f with
+  | Faults.FUndeclared -> "undeclared" | Faults.FDuplicate -> "duplicate" | Faults.FWrongLiteral -> "wrong_literal"
+  | Faults.FWrongObject -> "wrong_object" | Faults.FNoOverload -> "no_overload" | Faults.FUnknownField -> "unknown_field"
+  | Faults.FUnknownItem -> "unknown_item" | Faults.FUnknownLib -> "unknown_library" | Faults.FUnknownUnit -> "unknown_unit"
+  | Faults.FUnknownArch -> "unknown_architecture" | Faults.FUnknownFormal -> "unknown_formal"
+  | Faults.FMissingAssoc -> "missing_association" | Faults.FSigVar -> "signal_variable"
+let site_str (s : Faults.fsite) = match s with
+  | Faults.SZap n -> Printf.sprintf "zap:%d" (int_of_n n)
+  | Faults.SDup n -> Printf.sprintf "dup:%d" (int_of_n n)
+  | Faults.SRoot (n, _) -> Printf.sprintf "root:%d" (int_of_n n)
+  | Faults.SArg (n, k, _) -> Printf.sprintf "arg:%d:%d" (int_of_n n) (int_of_nat k)
+  | Faults.SDrop (n, port, x) -> Printf.sprintf "drop:%d:%s:%d" (int_of_n n) (if port then "port" else "generic") (int_of_n x)
+  | Faults.SFlip n -> Printf.sprintf "flip:%d" (int_of_n n)
+
+let rewrite_str (r : Rewrites.rewrite) = match r with
+  | Rewrites.RSwap s -> Printf.sprintf "swap:%d" (int_of_n s)
+  | Rewrites.RNamed s -> Printf.sprintf "named:%d" (int_of_n s)
+  | Rewrites.RPositional s -> Printf.sprintf "positional:%d" (int_of_n s)
+  | Rewrites.RSelected (s, x) -> Printf.sprintf "selected:%d:%d" (int_of_n s) (int_of_n x)
+  | Rewrites.RUseItems s -> Printf.sprintf "useitems:%d" (int_of_n s)
+  | Rewrites.RWrap (s, l) -> Printf.sprintf "wrap:%d:%d" (int_of_n s) (int_of_n l)
+  | Rewrites.RAddDecl (s, x, k) -> Printf.sprintf "adddecl:%d:%d:%d" (int_of_n s) (int_of_n x) (int_of_n k)
+
+let fresh_ident (p : Syntax.program) : int =
+  1 + Stdlib.List.fold_left (fun m x -> max m (int_of_n x)) 8 (Rewrites.idents_program p)
+
+(* one random rewrite candidate *)
+let random_rewrite (p : Syntax.program) : Rewrites.rewrite option =
+  let kind = rand 7 in
+  let nn x = n_of_int x in
+  match kind with
+  | 0 -> (match pick (Faults.dup_sites p @ Rewrites.add_sites p) with Some s -> Some (Rewrites.RSwap s) | None -> None)
+  | 1 -> (match pick (Rewrites.phrase_ids p) with Some s -> Some (Rewrites.RNamed s) | None -> None)
+  | 2 -> (match pick (Rewrites.phrase_ids p) with Some s -> Some (Rewrites.RPositional s) | None -> None)
+  | 3 -> (match pick (Walk.walk_program p) with
+          | Some i -> (match pick (Rewrites.use_occs_of_phrase i) with
+                       | Some x -> Some (Rewrites.RSelected (i.Walk.pi_id, x)) | None -> None)
+          | None -> None)
+  | 4 -> (match pick (Rewrites.use_all_sites p) with Some s -> Some (Rewrites.RUseItems s) | None -> None)
+  | 5 -> (match pick (Rewrites.conc_ids p) with Some s -> Some (Rewrites.RWrap (s, nn (fresh_ident p))) | None -> None)
+  | _ -> (match pick (Rewrites.add_sites p) with Some s -> Some (Rewrites.RAddDecl (s, nn (fresh_ident p), nn (rand 4))) | None -> None)
+
+let rec rewrite_chain (p : Syntax.program) (depth : int) (tries : int) (acc : Rewrites.rewrite list) =
+  if depth = 0 || tries = 0 then (p, Stdlib.List.rev acc)
+  else match random_rewrite p with
+    | Some r when Rewrites.applicable r p -> rewrite_chain (Rewrites.apply_rewrite r p) (depth - 1) (tries - 1) (r :: acc)
+    | _ -> rewrite_chain p depth (tries - 1) acc
+
+let fclass_of_name s = Stdlib.List.find_opt (fun f -> fclass_name f = s) Faults.all_fclasses
+
+let random_fault (p : Syntax.program) (want : Faults.fclass option) : (Faults.fclass * Faults.fsite) option =
+  let rec go tries =
+    if tries = 0 then None else
+    let f = match want with Some f -> f | None -> (match pick Faults.all_fclasses with Some f -> f | None -> Faults.FUndeclared) in
+    match pick (Faults.site_candidates f p) with
+    | Some st when Faults.eligible f st p -> Some (f, st)
+    | _ -> go (tries - 1) in
+  go 12
+
+let handle_case pid tag nrew depth nfaults rseed fwant choices =
+  rng := rseed * 7919 + 13;
+  let fell = Gen.gen_fell_back choices in
+  let p = Gen.gen_program choices in
+  let base = pid ^ ".b" in
+  Printf.printf "M %s fellback %b\n" base fell;
+  emit_program base (tag * 64) p [];
+  for k = 1 to nrew do
+    let (q, rs) = rewrite_chain p depth (depth * 12) [] in
+    if rs <> [] then begin
+      let id = Printf.sprintf "%s.r%d" pid k in
+      Printf.printf "M %s rewrites %s\n" id (Stdlib.String.concat "," (Stdlib.List.map rewrite_str rs));
+      Printf.printf "M %s valid %b\n" id (Sem.valid_b q);
+      emit_program id (tag * 64 + k) q []
+    end
+  done;
+  for k = 1 to nfaults do
+    match random_fault p fwant with
+    | Some (f, st) ->
+      let q = Faults.plant st p in
+      let id = Printf.sprintf "%s.f%d" pid k in
+      let (en, ec) = Faults.expect f st p in
+      Printf.printf "M %s fault %s %s\n" id (fclass_name f) (site_str st);
+      Printf.printf "M %s expect %d %s\n" id (int_of_n en) (cls_name ec);
+      (match Sem.blame_program q with
+       | Some (bn, bc) -> Printf.printf "M %s blame %d %s\n" id (int_of_n bn) (cls_name bc)
+       | None -> Printf.printf "M %s blame none none\n" id);
+      Printf.printf "M %s faulty_file %s\n" id (file_of_nid (tag * 64 + 32 + k) q (int_of_n en));
+      emit_program ~units_of:p id (tag * 64 + 32 + k) q [int_of_n en]
+    | None -> ()
+  done
 
 let () =
   iter_lines (fun ln ->
-    match Stdlib.List.filter (fun x -> x <> "") (split_on ' ' ln) with
-    | "gen" :: pid :: tag :: cs ->
-      let choices = Stdlib.List.map (fun c -> n_of_int (int_of_string c)) cs in
-      let fell = Gen.gen_fell_back choices in
-      let p = Gen.gen_program choices in
-      Printf.printf "M %s fellback %b\n" pid fell;
-      emit_program pid (int_of_string tag) p
+    match split_on '|' ln with
+    | [hd; cs] ->
+      (match Stdlib.List.filter (fun x -> x <> "") (split_on ' ' hd) with
+       | ["case"; pid; tag; nrew; depth; nfaults; rseed; fwant] ->
+         let choices = Stdlib.List.map (fun c -> n_of_int (int_of_string c)) (Stdlib.List.filter (fun x -> x <> "") (split_on ' ' cs)) in
+         handle_case pid (int_of_string tag) (int_of_string nrew) (int_of_string depth) (int_of_string nfaults)
+           (int_of_string rseed) (fclass_of_name fwant) choices
+       | _ -> print_endline "BADREQ")
     | _ -> print_endline "BADREQ")
